@@ -172,6 +172,16 @@ func c12Streams() []c12Stream {
 		second := bigTotal(8192 - len(hb) - d)
 		add(fmt.Sprintf("align8192%+d", -d), cat(hb, second, tr, hb), hb, second, tr, hb)
 	}
+	// line noise longer than the internal buffer between messages (no BeginString in it; also noise made of '8's),
+	// and noise of 4090..4100 bytes in front of the first message, so that its "8" and "=" fall on either side of
+	// the 4096-byte mark of a fresh buffer
+	for _, ch := range []string{"x", "8"} {
+		junk := func(n int) []byte { return []byte(strings.Repeat(ch, n)) }
+		add("noise5000-"+ch, cat(hb, junk(5000), tr, hb), hb, tr, hb)
+		for n := 4090; n <= 4100; n++ {
+			add(fmt.Sprintf("noise%d-%s", n, ch), cat(junk(n), hb, tr), hb, tr)
+		}
+	}
 	// ill-formed streams: only the differential oracle applies
 	add("bad-length-alpha", cat(hb, []byte("8=FIX.4.2\x019=A\x0135=0\x0110=000\x01"), tr))
 	add("zero-length", cat(hb, []byte("8=FIX.4.2\x019=0\x0135=0\x0110=000\x01"), tr))
@@ -298,7 +308,7 @@ func runC12(c *core.Ctx) {
 	} else {
 		c.SetDeadline(40 * time.Minute)
 	}
-	c.SetRule("for each of ~22 byte streams (well-formed messages incl. look-alike trailers inside data fields, garbage separators, messages of 4000-9000 bytes around the 4096-byte buffer, bad/zero/huge/negative BodyLength, truncated tails): every partition with <= 2 cut points (all positions for streams up to 400 bytes, positions around buffer multiples/field markers for longer ones; thorough: <= 3 cut points on short streams), the all-1-byte partition, every fixed chunk size, x 3 reader behaviours; differential oracle against the single-read result plus exact expected frames for well-formed streams")
+	c.SetRule("for each of ~22 byte streams (well-formed messages incl. look-alike trailers inside data fields, garbage separators, messages of 4000-9000 bytes around the 4096-byte buffer, line noise longer than the buffer between and in front of messages, bad/zero/huge/negative BodyLength, truncated tails): every partition with <= 2 cut points (all positions for streams up to 400 bytes, positions around buffer multiples/field markers for longer ones; thorough: <= 3 cut points on short streams), the all-1-byte partition, every fixed chunk size, x 3 reader behaviours; differential oracle against the single-read result plus exact expected frames for well-formed streams")
 	c.Assume("terminal error compared by text", "readers: data then (0,EOF); last chunk with EOF; one (0,nil) read")
 	streams := c12Streams()
 	type job struct {
